@@ -111,10 +111,19 @@ class Interp:
                     return r
             if nm in ("isinf", "isnan", "isposinf", "isneginf") and anysym:
                 return [np.zeros(tuple(v.aval.shape), dtype=bool) for v in e.outvars]   # generic point: no NaN/inf
-            if nm == "inv" and len(ins) == 1 and len(e.outvars) == 1:
-                return [batched(inv_sym, self.sym(ins[0]), 2)]
-            if nm == "det" and len(ins) == 1 and len(e.outvars) == 1:
-                return [batched(det_sym, self.sym(ins[0]), 0)]
+            if nm in ("inv", "det") and len(ins) == 1 and len(e.outvars) == 1:
+                ish, osh = tuple(np.shape(ins[0])), tuple(e.outvars[0].aval.shape)
+                # the contract is only applied when the matrix axes are the last two (nested vmaps may put batch axes elsewhere)
+                if len(ish) >= 2 and ish[-1] == ish[-2] and osh == (ish if nm == "inv" else ish[:-2]):
+                    return [batched(inv_sym if nm == "inv" else det_sym, self.sym(ins[0]), 2 if nm == "inv" else 0)]
+                if nm == "det" and len(ish) >= 2:
+                    # nested vmaps: find the unique pair of equal-sized axes whose removal gives the output shape
+                    pairs = [(a, b) for a in range(len(ish)) for b in range(a + 1, len(ish)) if ish[a] == ish[b]
+                             and tuple(d for k, d in enumerate(ish) if k not in (a, b)) == osh]
+                    if len(pairs) == 1:
+                        a, b = pairs[0]
+                        A = np.moveaxis(self.sym(ins[0]), (a, b), (-2, -1))
+                        return [batched(det_sym, A, 0)]
             if hasattr(cj, "jaxpr"):
                 return self.run(cj.jaxpr, cj.consts, ins)
             return self.run(cj, [], ins)
